@@ -31,6 +31,8 @@ def do_replay(prop, path):
     core.register_classes()
     core.install_call_budget()
     trace = json.load(open(path))
+    if trace.get("hashseeds") and not os.environ.get("VERIF_INNER"):
+        return replay_across_interpreters(prop, path, trace)
     pristine = None
     handler = getattr(mod, "PRISTINE_HANDLER", None)
     if handler is not None:
@@ -58,6 +60,59 @@ def do_replay(prop, path):
     return rc
 
 
+def replay_across_interpreters(prop, path, trace):
+    """Replay files of class interpreter_dependence: the same history must give the same
+    event digest in fresh interpreters with different PYTHONHASHSEED values."""
+    digs = {}
+    for hs in trace["hashseeds"]:
+        env = dict(os.environ)
+        env.pop("VERIF_BOOTED", None)
+        env["VERIF_INNER"] = "1"
+        env["VERIF_HASHSEED"] = str(hs)
+        env["PYTHONHASHSEED"] = str(hs)
+        p = subprocess.run([sys.executable, os.path.join(VERIF, "check.py"), prop, "--replay", path], capture_output=True, text=True, env=env, timeout=900)
+        first = [ln for ln in p.stdout.splitlines() if ln.startswith("replay property=")]
+        digs[str(hs)] = first[0].split("digest=")[1] if first else f"rc={p.returncode}"
+    print(f"replay property={prop} across interpreters: {json.dumps(digs)}")
+    if len(set(digs.values())) > 1:
+        print(f"VIOLATION property={prop} replay={os.path.abspath(path)}")
+        return 1
+    print("no violation on replay")
+    return 0
+
+
+def interpreter_agreement(prop, seed, n, args):
+    """Thorough tier: a sample of runs in fresh interpreters under other hash seeds must
+    give identical event digests (outputs may not depend on hash-ordered iteration)."""
+    outs = {}
+    for hs in ("0", "271828", "31337"):
+        env = dict(os.environ)
+        env.pop("VERIF_BOOTED", None)
+        env["VERIF_HASHSEED"] = hs
+        env["PYTHONHASHSEED"] = hs
+        env["VERIF_SEED"] = str(seed)
+        cmd = [sys.executable, os.path.join(VERIF, "check.py"), prop, "--runs", str(n), "--digest-only", "--tier", "quick"]
+        if args.workers:
+            cmd += ["--workers", str(args.workers)]
+        p = subprocess.run(cmd, capture_output=True, text=True, env=env, timeout=3600)
+        line = [ln for ln in p.stdout.splitlines() if ln.startswith("{")]
+        if not line:
+            return [{"harness_error": f"interpreter agreement run failed (hashseed {hs}): {p.stderr[-800:]}", "run": -1}], {}
+        outs[hs] = json.loads(line[-1])
+    ref = outs["0"]
+    results = []
+    for hs, d in outs.items():
+        diff = sorted(int(k) for k in ref if d.get(k) != ref[k])
+        if diff:
+            mod = runner.get_module(prop)
+            res = mod.run_one(seed, diff[0], "quick", None)
+            tr = dict(res["trace"], hashseeds=[0, int(hs)])
+            v = {"class": "interpreter_dependence", "client_kind": None, "client": None, "op": None, "step": 0, "fault": None, "detail": {"runs_that_differ": diff[:10], "hashseeds": [0, int(hs)]}}
+            results.append({"violations": [v], "stats": {}, "digest": "", "signature": "interp", "nontrivial": False, "run": diff[0], "nsteps": len(tr["steps"]), "trace": tr})
+            break
+    return results, {"two_interpreter_agreement": {"runs": n, "hashseeds": list(outs), "agree": not results}}
+
+
 def do_check(prop, tier, seed, args):
     t0 = time.time()
     mod = runner.get_module(prop)
@@ -70,11 +125,14 @@ def do_check(prop, tier, seed, args):
     extra = {}
     extra_fn = getattr(mod, "extra_checks", None)
     extra_results = []
+    results_all = list(results)
     if extra_fn is not None and not args.digest_only:
         extra_results, extra = extra_fn(seed, tier, args)
-        results_all = results + extra_results
-    else:
-        results_all = results
+        results_all += extra_results
+    if tier == "thorough" and not args.digest_only and not args.runs:
+        r2, e2 = interpreter_agreement(prop, seed, 300, args)
+        results_all += r2
+        extra.update(e2)
     herr = [r for r in results_all if "harness_error" in r]
     if args.digest_only:
         print(json.dumps({str(r["run"]): r.get("digest", "ERR") for r in results}, sort_keys=True))
@@ -122,7 +180,7 @@ def do_check(prop, tier, seed, args):
                 continue
             seen_keys.add(key)
             trace = r["trace"]
-            if not args.no_minimise:
+            if not args.no_minimise and v["class"] != "interpreter_dependence":
                 trace, v, _ = runner.minimise(prop, trace, v, pristine)
             trace = dict(trace)
             trace["violation"] = {k: v[k] for k in ("class", "client_kind", "client", "op", "step", "fault", "detail")}
